@@ -16,6 +16,11 @@ class StackBoundExceeded(BaseException):
     left recursion: witness of unbounded expansion"""
 
 
+class CtorStepBoundExceeded(BaseException):
+    """the left-recursion check of the constructor executed far more lines than it ever needs
+    for grammars of the generated size: 'terminates' restated as bounded progress"""
+
+
 def _find_code(func, name):
     for const in func.__code__.co_consts:
         if hasattr(const, "co_name") and const.co_name == name:
@@ -39,6 +44,11 @@ class ParseMonitor:
         se = getattr(llparser, "_StackElement", None)
         self.code_rollback = getattr(getattr(se, "switch_to_next_prod", None), "__code__", None)
         self.code_step = getattr(getattr(se, "get_cur_prod", None), "__code__", None)
+        self.code_verify = getattr(getattr(llparser.LLParser, "_verify_grammar_structure_part2", None),
+                                   "__code__", None)
+        self.ctor_lines = 0
+        self.ctor_bound = None
+        self.max_ctor_lines = 0
         if not (self.code_push and self.code_rollback and self.code_step):
             raise Inconclusive("monitored code objects of LLParser.parse not found "
                                "(_put_on_stack / switch_to_next_prod / get_cur_prod)")
@@ -47,6 +57,19 @@ class ParseMonitor:
         mon.register_callback(self.TOOL, mon.events.PY_START, self._on_start)
         for code in (self.code_push, self.code_rollback, self.code_step):
             mon.set_local_events(self.TOOL, code, mon.events.PY_START)
+        if self.code_verify is not None:
+            mon.register_callback(self.TOOL, mon.events.LINE, self._on_line)
+            mon.set_local_events(self.TOOL, self.code_verify, mon.events.LINE)
+
+    def _on_line(self, code, line):
+        self.ctor_lines += 1
+        if self.ctor_bound is not None and self.ctor_lines > self.ctor_bound:
+            raise CtorStepBoundExceeded(self.ctor_lines)
+
+    def start_ctor(self, bound):
+        self.max_ctor_lines = max(self.max_ctor_lines, self.ctor_lines)
+        self.ctor_lines = 0
+        self.ctor_bound = bound
 
     def reset(self):
         self.pushes = 0
@@ -76,6 +99,9 @@ class ParseMonitor:
         mon = sys.monitoring
         for code in (self.code_push, self.code_rollback, self.code_step):
             mon.set_local_events(self.TOOL, code, 0)
+        if self.code_verify is not None:
+            mon.set_local_events(self.TOOL, self.code_verify, 0)
+            mon.register_callback(self.TOOL, mon.events.LINE, None)
         mon.register_callback(self.TOOL, mon.events.PY_START, None)
         mon.free_tool_id(self.TOOL)
 
